@@ -725,8 +725,13 @@ func (r *iterRun) program(steps, nDB, nTxn int) {
 			}
 			r.compactOnce(0, 0, base, "l0_move")
 		case x < 87:
-			r.db.VerifLSM().VerifAgeTables(time.Hour)
-			r.compactOnce(0, 0, 0, "l0l0")
+			// With base level 0 the compaction falls back to a move to the natural base
+			// level (6); the directed base level only ever moves towards L1
+			// (compact.BuildTargets), so this is tried only while it is still 6.
+			if base == 6 {
+				r.db.VerifLSM().VerifAgeTables(time.Hour)
+				r.compactOnce(0, 0, 0, "l0l0")
+			}
 		case x < 91:
 			r.compactOnce(1+rng.Intn(6), int(compact.IngestDrain), 0, "drain")
 		case x < 93:
